@@ -60,13 +60,13 @@ def late_bound(fn_node):
     for lp in [n for n in ast.walk(fn_node) if isinstance(n, (ast.For, ast.While))]:
         rebound = set()
         if isinstance(lp, ast.For):
-            rebound |= set(x.id for x in ast.walk(lp.target) if isinstance(x, ast.Name))
+            rebound |= set(x.id for x in ast.walk(lp.target) if isinstance(x, ast.Name) and isinstance(x.ctx, ast.Store))
         for st in lp.body:
             for x in ast.walk(st):
                 if isinstance(x, (ast.Assign, ast.AugAssign, ast.AnnAssign)):
                     for t in (x.targets if isinstance(x, ast.Assign) else [x.target]):
                         for y in ast.walk(t):
-                            if isinstance(y, ast.Name):
+                            if isinstance(y, ast.Name) and isinstance(y.ctx, ast.Store):
                                 rebound.add(y.id)
                 elif isinstance(x, (ast.For, ast.comprehension)) and x is not lp:
                     pass
